@@ -180,7 +180,7 @@ def _snapshot():
 def _exposures(repo):
     out = []
 
-    def mk(relfile, modname, qual, clsname, params, post, note=""):
+    def mk(relfile, modname, qual, clsname, params, post, note="", props=("C14",)):
         def model():
             m = GateModel(modname, relfile, clsname, repo=repo)
             if "c_vhd" in m.cmods:  # read_footer(fh): used through its contract (returns the parsed c_vhd.footer, raises on a bad cookie)
@@ -190,7 +190,7 @@ def _exposures(repo):
             m.methods[("super", "__init__")] = lambda eng, st, args, node, **kw: (st.ghost.__setitem__("super_init", (tuple(args), dict(kw))), NoneV())[1]
             return m
 
-        return FnContract(relfile, qual, ["C14"], model, params=params, requires=lambda m: m.hyps, post=post, allow_any_exception=True, mode="exposure",
+        return FnContract(relfile, qual, list(props), model, params=params, requires=lambda m: m.hyps, post=post, allow_any_exception=True, mode="exposure",
                           note=note or "gate mode: normal return => exposed attributes equal the parsed header fields")
 
     def stream_size(eng, st):
@@ -207,7 +207,7 @@ def _exposures(repo):
         return [("size_is_DiskSize", stream_size(eng, st) == g("DiskSize")), ("block_size_is_BlockSize", a("block_size") == g("BlockSize")), ("sector_size_is_SectorSize", a("sector_size") == g("SectorSize")),
                 ("data_offset_is_DataOffset", a("data_offset") == g("DataOffset"))]
 
-    out.append(mk(D + "vdi.py", "dissect.hypervisor.disk.vdi", "VDI.__init__", "VDI", lambda m: {"self": ObjV("self"), "fh": FileV("fh"), "parent": OpaqueV("parent")}, vdi_post))
+    out.append(mk(D + "vdi.py", "dissect.hypervisor.disk.vdi", "VDI.__init__", "VDI", lambda m: {"self": ObjV("self"), "fh": FileV("fh"), "parent": OpaqueV("parent")}, vdi_post, props=("C14", "C05")))
 
     def hds_post(eng, st, rv):
         h = parsed(st, "pvd_header")
@@ -221,14 +221,14 @@ def _exposures(repo):
                 ("cluster_size_is_512_times_m_Sectors", a("cluster_size") == 512 * g("m_Sectors")), ("data_offset_is_m_FirstBlockOffset", a("data_offset") == g("m_FirstBlockOffset")),
                 ("in_use_iff_the_in_use_signature", eng.truthy(st.attrs["self.in_use"]) == (g("m_DiskInUse") == 0x746F6E59))]
 
-    out.append(mk(D + "hdd.py", "dissect.hypervisor.disk.hdd", "HDS.__init__", "HDS", lambda m: {"self": ObjV("self"), "fh": FileV("fh"), "parent": OpaqueV("parent")}, hds_post))
+    out.append(mk(D + "hdd.py", "dissect.hypervisor.disk.hdd", "HDS.__init__", "HDS", lambda m: {"self": ObjV("self"), "fh": FileV("fh"), "parent": OpaqueV("parent")}, hds_post, props=("C14", "C06")))
 
     def disk_post(eng, st, rv):
         h = parsed(st, "footer")
         return [("size_is_footer_current_size", eng.as_int(st.attrs["self.size"], st, None) == fld(eng, st, h, "current_size").e)]
 
     out.append(mk(D + "vhd.py", "dissect.hypervisor.disk.vhd", "Disk.__init__", "Disk", lambda m: {"self": ObjV("self"), "fh": FileV("fh"), "footer": NoneV()}, disk_post,
-                  note="footer not supplied: it is read from the file (read_footer is inlined by its contract: parses c_vhd.footer)"))
+                  note="footer not supplied: it is read from the file (read_footer is inlined by its contract: parses c_vhd.footer)", props=("C14", "C04")))
     return out
 
 
@@ -580,6 +580,8 @@ def FuncRef_(name):
 
 
 def extra_checks(rep, pid, ledger, known):
+    if pid != "C14":
+        return  # other properties use only the exposure contracts of this module (selected through their props)
     for fn in (check_layouts, check_read_extensions, check_vhdx, check_vmdk, check_hdd_xml):
         try:
             fn(rep, pid)
@@ -628,6 +630,8 @@ def replay(rep, ob_name, qs):
 
 
 def bounded(rep, pid, known):
+    if pid != "C14":
+        return
     res = _corpus(rep)
     if "error" in res:
         rep.errors.append(f"metadata corpus failed to run: {res['error']}")
@@ -644,6 +648,8 @@ def bounded(rep, pid, known):
 
 
 def trusted(pid):
+    if pid != "C14":
+        return ["gate-mode frame assumption for the constructor exposure contract (unknown calls do not change parsed header fields); cstruct layout probed under C14"]
     return ["A3 cstruct parses a structure per its declared layout; the layout obligations probe the real definitions field by field against the specification tables",
             "bytes.decode(codec), int(), UUID(), re (extent grammar: C10), ElementTree find/iterfind, dict/list semantics: assumed (stdlib); the proof pins which bytes / call chains feed which exposed value",
             "gate-mode frame assumption for the exposure contracts (unknown calls do not change parsed fields)",
